@@ -10,8 +10,9 @@ from ..charclass import S, members
 from ..core import PKG, Report
 from ..domain import CONFIG, CONST, ENUM, IDENT, NUM, WORD
 from .c19loc import FieldFlow, Placement, below
+from .c19run import command_callee, state_probe
 from .effects import (callee_of, constant_of, effect_argument, effect_sites, in_context, local_sources, operand_av,
-                      performing, root_canonical, state_dependence)
+                      performing, reach, root_canonical, state_dependence)
 
 LEVEL = ("effect analysis: every filesystem/process effect site of the package is enumerated; its path operand (string "
          "structure from the abstract interpreter) must be project_dir/package_dir joined with literal or sanitised components, "
@@ -482,6 +483,27 @@ def run(rep: Report, ctx: Any) -> str:
                   f"regenerating over an earlier generation no longer gives the tree a fresh generation produces", where(d.func, d.call),
                   lhs=d.on[:3], rhs="decided by the document and the configuration only")
     floor("state_independent_writes", n_indep, 10)
+    # whether a generation runs at all is decided the same way: on the way from the command down to Project.build - through the import
+    # made inside the command, the constructor, the method of the object just built - every step towards build (and anything written
+    # on the way) is looked at like the writes inside build. Up there the document and the configuration file are read: their content
+    # is what the generation is a function of, so reading the content of a file is an observation only when the path read leads to the
+    # output location; existence, kind, metadata (time stamps, sizes) and listings always are
+    callee = command_callee(it)
+    inside = {g.qual for g in reach(ix, build)} | {g.qual for g in (reach(ix, init) if init else [])}
+    running = {id(c) for g in reach(ix, cli_gen, callee) for c in ast.walk(g.node)
+               if isinstance(c, ast.Call) and callee(ix, g, c) is build}
+    rep.require(running, "the call of Project.build on the way from the generate command")
+    n_run = 0
+    for d in state_dependence(ix, cli_gen, producing | running, touching, {id(x) for x in refusals}, cfgs, callee=callee, probe=state_probe):
+        if d.func.qual in inside:
+            continue
+        n_run += 1
+        rep.check(not d.on, "R19.4", f"{short(d.func)}::{norm(d.call)[:50]}::independent-of-existing-files",
+                  f"`{norm(d.call)[:70]}` - a step from the command towards Project.build - happens, or gets its arguments, depending on what "
+                  f"the filesystem already holds ({d.on[:3]}): whether a generation runs is no longer decided by the document and the "
+                  f"configuration, regenerating over an earlier generation may leave it as it is", where(d.func, d.call),
+                  lhs=d.on[:3], rhs="decided by the document and the configuration only")
+    floor("steps_from_command_to_build", n_run, 1)
     if short_of:
         if not rep.findings:
             rep.floor(*short_of[0])
